@@ -64,8 +64,11 @@ def dump(f):
             print('    %s' % k.upper())
 
 if __name__ == '__main__':
+    repo = '/repo'
+    if '--repo' in sys.argv:
+        i = sys.argv.index('--repo'); repo = sys.argv[i + 1]; del sys.argv[i:i + 2]
     cfg = sys.argv[2] if len(sys.argv) > 2 else 'A'
-    d, _ = get_facts('/repo', cfg)
+    d, _ = get_facts(repo, cfg)
     P = Program(d, cfg)
     for f in P.fn_list:
         if sys.argv[1] in f.key:
